@@ -20,9 +20,10 @@ static const char *CMD[] = {"p a", "p b c", "history", "exit", "!!", "!0", "!1",
 enum { NCMD = 22 };
 // navigation lane. Tree (built in World): /p (func)  /d/ (dir)  /d/f (func)  /d/e/ (dir)  /d/e/g (func)  /d/e/up -> d (a directory
 // mounted below itself)  /d/e/top -> root  /d/x (func node deleted after mounting)  /z (dir node deleted after mounting)
+// /d/gone and /d/e/gone (mounted, then unmounted again)
 static const char *NAV[] = {"cd d", "cd ..", "cd /", "cd", "cd d/../..", "cd e/up", "cd d/e", "cd e/top", "cd z", "cd ./e/../e/g", "d", "e",
                             "ls", "ls d", "ls d/f", "ls z", "ls ..", "tree", "tree d", "tree /", "tree d/x", "tree f", "pwd", "help", "help d/f", "help z", "help nope",
-                            "d/f x", "/p a", "f y", "x", "e/top/p b", "g", "../p c", "nope", "!!", "!0", "history"};
+                            "d/f x", "/p a", "f y", "x", "e/top/p b", "g", "../p c", "nope", "gone q", "!!", "!0", "history"};
 enum { NNAV = sizeof NAV / sizeof NAV[0] };
 static bool g_nav = false;
 static const char *cmd_text(int c) { return g_nav ? NAV[c] : CMD[c]; }
@@ -143,6 +144,7 @@ struct World {
       term.mountNode(term.rootNode(), d, "d"); term.mountNode(term.rootNode(), z, "z");
       term.mountNode(d, probe, "f"); term.mountNode(d, e, "e"); term.mountNode(d, x, "x");
       term.mountNode(e, probe, "g"); term.mountNode(e, d, "up"); term.mountNode(e, term.rootNode(), "top");
+      term.mountNode(d, probe, "gone"); term.mountNode(e, d, "gone"); term.umountNode(d, "gone"); term.umountNode(e, "gone");   // unmounted again: the name must not resolve
       term.deleteNode(x); term.deleteNode(z);
     }
     g_conn = &c; st = term.newSession(&c); term.onBegin(st);
